@@ -282,3 +282,27 @@ func HasLower(rows []string) bool {
 	}
 	return false
 }
+
+// Perturb draws an alignment of the same dimensions as rows: every row keeps its cells except for a
+// drawn share that is redrawn from the residues of the tier (used for "edit in place" histories)
+func Perturb(t *rapid.T, rows []string, tier int) []string {
+	chars := "ACGT"
+	if tier >= 1 {
+		chars = "ACGT-"
+	}
+	if tier >= 2 {
+		chars = "ACGTRYSWKMBDHVN-"
+	}
+	out := make([]string, len(rows))
+	for i, r := range rows {
+		rate := rapid.SampledFrom([]int{0, 5, 30, 30, 100}).Draw(t, "editrate")
+		b := []byte(r)
+		for j := range b {
+			if rate > 0 && rapid.IntRange(0, 99).Draw(t, "edit") < rate {
+				b[j] = chars[rapid.IntRange(0, len(chars)-1).Draw(t, "newchar")]
+			}
+		}
+		out[i] = string(b)
+	}
+	return out
+}
